@@ -20,6 +20,25 @@ pub const EPOCH: u64 = 1_700_000_000_000;
 
 static NEXT_TAG: AtomicU64 = AtomicU64::new(1);
 
+/// Per-thread overrides applied to every world created afterwards (used by checks that
+/// re-run other properties' scenarios under a chosen stepping mode, e.g. C12).
+#[derive(Clone, Copy, Debug, Default)]
+pub struct Overrides {
+    pub stepping: Option<Stepping>,
+    pub record_gates: bool,
+    pub snapshot_level: u8,
+    /// Every probe start jitter not forced by the scenario takes this value.
+    pub jitter_const: Option<u64>,
+}
+
+thread_local! {
+    static OVERRIDES: std::cell::Cell<Option<Overrides>> = const { std::cell::Cell::new(None) };
+}
+
+pub fn set_overrides(o: Option<Overrides>) {
+    OVERRIDES.with(|c| c.set(o));
+}
+
 /// Raised (as a panic payload) when the real-time watchdog fires: never a violation.
 pub struct Inconclusive(pub String);
 
@@ -558,6 +577,22 @@ pub fn resolved_addrs(r: &ResolvedService) -> Vec<(IpAddr, Vec<u32>)> {
 
 impl World {
     pub fn new(seed: u64) -> Self {
+        let o = OVERRIDES.with(|c| c.get()).unwrap_or_default();
+        let mut w = Self::new_plain(seed);
+        w.record_gates = o.record_gates;
+        w.snapshot_level = o.snapshot_level;
+        if let Some(s) = o.stepping {
+            w.stepping = s;
+        }
+        w
+    }
+
+    /// The stepping mode a scenario asks for; an override of the calling thread wins.
+    pub fn set_stepping(&mut self, s: Stepping) {
+        self.stepping = OVERRIDES.with(|c| c.get()).and_then(|o| o.stepping).unwrap_or(s);
+    }
+
+    fn new_plain(seed: u64) -> Self {
         Self {
             clock: Arc::new(AtomicU64::new(EPOCH + (seed % 1000) * 7919)),
             hosts: Vec::new(),
@@ -615,7 +650,12 @@ impl World {
         {
             let mut g = ctx.lock();
             g.snapshot_level = self.snapshot_level;
+            g.jitter_const = OVERRIDES.with(|c| c.get()).and_then(|o| o.jitter_const);
             setup(&mut g);
+            if g.jitter_const.is_some() {
+                // a forced queue would be handed out in interface-visiting order
+                g.jitter.clear();
+            }
         }
         hooks::sim_next_daemon(ctx.clone());
         let daemon = ServiceDaemon::new().expect("daemon creation");
